@@ -677,3 +677,27 @@ pub fn dense_size_space(max_words: usize) -> ByteSpace {
         }
     })
 }
+
+/// Datagrams of every total size 24, 28 ... 4 * `max_words` bytes made of three unremarkable tiles (an unknown-type
+/// packet that takes up the slack, a BYE, an APP - in an order that rotates with the size): a total that crosses or
+/// hits a particular value while no single count or length is special. Exactly tiled, and with one stray byte.
+pub fn dense_total_space(max_words: usize) -> ByteSpace {
+    ByteSpace::new("datagrams-of-every-total-size", (max_words as u64 - 5) * 2, move |idx, out| {
+        out.clear();
+        let w = (idx / 2) as usize + 6;
+        let slack = w - 5;
+        let mut tiles: Vec<Vec<u8>> = Vec::new();
+        let mut u = vec![0x80 | (w % 32) as u8, 208, ((slack - 1) >> 8) as u8, (slack - 1) as u8];
+        u.extend((4..slack * 4).map(|i| ((i * 5 + w) % 253) as u8 | 1));
+        tiles.push(u);
+        tiles.push(vec![0x81, 203, 0, 1, 0xB1, 0xB2, 0xB3, (w % 251) as u8]);
+        tiles.push(vec![0x83, 204, 0, 2, 1, 2, 3, 4, b't', b'o', b't', b'l']);
+        tiles.rotate_left(w % 3);
+        for t in &tiles {
+            out.extend_from_slice(t);
+        }
+        if idx % 2 == 1 {
+            out.push(0x80);
+        }
+    })
+}
